@@ -521,7 +521,8 @@ void cmi_dataset_histogram_print(const struct cmi_dataset_histogram *hp,
 
     /* Max width of the histogram bars */
     const uint16_t max_stars = 50u;
-    const double scale = hp->binmax / (double)max_stars;
+    /* All bins may be empty, e.g., a time series where no sample has any duration */
+    const double scale = (hp->binmax > 0.0) ? hp->binmax / (double)max_stars : 1.0;
 
     /* Print the histogram */
     data_print_line(fp, symbol_thin, line_length);
